@@ -8,6 +8,8 @@ import MosnVerif.Model.HpackEmit
 import MosnVerif.Model.H2Lock
 import MosnVerif.Model.DispatchCodec
 import MosnVerif.Model.PoolRecover
+import MosnVerif.Drive.C08H2
+import MosnVerif.Drive.C08Dubbo
 /-! driver of C08 (malformed input contained): see `run` for the case kinds. Core Lean only. -/
 namespace MosnVerif.Drive.C08
 open MosnVerif.Drive MosnVerif.Model.Framing MosnVerif.Model.FrameBytes MosnVerif.Model.FrameChk MosnVerif.Model.KVBlock
@@ -279,6 +281,8 @@ def run (caseToks impl : List String) : String :=
   | ["h2up", method, frames] => h2up method frames impl
   | ["disp", proto, bytes] => disp proto bytes impl
   | ["pool", api, st] => pool api st impl
+  | ["dmeta", listener, kinds, nargs, _] => MosnVerif.Drive.C08Dubbo.dmeta listener kinds nargs impl
+  | ["h2disp", side, bytes] => MosnVerif.Drive.C08H2.h2disp side bytes impl
   | ["contain", _, _] =>
     -- containment run (support): the probe client must have been answered after this malformed connection
     (match impl with
